@@ -62,7 +62,7 @@ pub fn ranker(id: &str, needle: &[u8], seed: u64) -> TableRanker {
         }
         _ if id.starts_with("perm") => {
             // seed-derived permutation (xorshift Fisher-Yates)
-            let salt: u64 = id[4..].parse().unwrap_or(0);
+            let salt: u64 = id[4..].bytes().fold(0u64, |a, d| a * 10 + (d - b'0') as u64);
             let mut x = 0x9e3779b97f4a7c15u64 ^ seed.wrapping_mul(0x2545f4914f6cdd1d) ^ (salt << 32 | salt);
             (0..256).for_each(|i| t[i] = i as u8);
             for i in (1..256).rev() {
@@ -76,11 +76,20 @@ pub fn ranker(id: &str, needle: &[u8], seed: u64) -> TableRanker {
         // ascending byte order; rank = 60 * digit; other bytes rank 128
         _ if id.starts_with("wo:") => {
             t = [128; 256];
-            let mut letters: Vec<u8> = needle.to_vec();
-            letters.sort();
-            letters.dedup();
-            for (l, d) in letters.iter().zip(id[3..].bytes()) {
-                t[*l as usize] = (d - b'0') * 60;
+            // the needle's distinct bytes in ascending order (no allocation:
+            // this runs inside the allocation probe's bracket)
+            let mut present = [false; 256];
+            for &b in needle {
+                present[b as usize] = true;
+            }
+            let mut digits = id[3..].bytes();
+            for l in 0..256 {
+                if present[l] {
+                    match digits.next() {
+                        Some(d) => t[l] = (d - b'0') * 60,
+                        None => break,
+                    }
+                }
             }
         }
         _ => panic!("unknown ranker {}", id),
@@ -220,7 +229,7 @@ impl Kind {
     /// Whether building from a borrowed needle and searching must not touch
     /// the heap (C17). The owning conversions and Shift-Or may allocate.
     pub fn must_not_alloc(&self) -> bool {
-        !matches!(self, Kind::FinderOwned | Kind::RFinderOwned | Kind::ShiftOr | Kind::RankedAll(..) | Kind::Ranked(..))
+        !matches!(self, Kind::FinderOwned | Kind::RFinderOwned | Kind::ShiftOr | Kind::RankedAll(..))
     }
 }
 
